@@ -6,6 +6,9 @@ static ALLOC: vtv::alloc::Counting = vtv::alloc::Counting;
 
 fn main() {
 	let argv: Vec<String> = std::env::args().collect();
+	if let Some(n) = std::env::var("VTV_ALLOC_TRAP").ok().and_then(|s| s.parse().ok()) {
+		vtv::alloc::set_trap(n);
+	}
 	if argv.len() < 2 {
 		eprintln!("usage: vtv <property> [--tier quick|thorough] [--seed N] [--case N]");
 		std::process::exit(2);
